@@ -415,12 +415,11 @@ impl WalRecuperator {
 
         let schema = table.schema();
 
-        if let Some(row) =
-            Row::from_bytes_checked_with_snapshot(insert_op.redo(), schema, &snapshot)?
-        {
-            let columns = schema.column_indexes();
-            self.dml_executor.insert(table_id, &columns, &row)?;
-        }
+        // The transaction is known to be committed (it is in the redo set): its rows are not filtered
+        // through the recovery snapshot, which cannot know transactions newer than the last checkpoint.
+        let row = Row::from_bytes_checked(insert_op.redo(), schema)?;
+        let columns = schema.column_indexes();
+        self.dml_executor.insert(table_id, &columns, &row)?;
         Ok(())
     }
 }
